@@ -7,6 +7,7 @@ import (
 	"os"
 	"sort"
 	"strings"
+	"time"
 
 	"github.com/lightningnetwork/lnd/invoices"
 	"github.com/lightningnetwork/lnd/lnwire"
@@ -24,6 +25,9 @@ type SubCmd struct {
 	Preimage  [32]byte
 	CancelSet bool
 	Height    uint32
+	// Window > 0: this much time passes while the call sits in the HTLC
+	// interceptor (see World.NotifyWindow).
+	Window time.Duration
 }
 
 // SubResult is the synchronous outcome of a SubCmd in one world.
@@ -39,6 +43,10 @@ type Event struct {
 	Subs  []SubCmd // in execution order
 	Fault string   // "", failwrite, crashbefore, crashafter
 	Fired bool     // the injected fault actually fired
+	// Windowed: time passed (and timers may have run) inside a call of this
+	// event, so the store can have changed between the call's start and the
+	// moment it was decided.
+	Windowed bool
 }
 
 // Obs is everything one world showed during an event.
@@ -449,7 +457,7 @@ func (o *oracleState) Check(s *Sim, ev *Event, obs *Obs) {
 	}
 
 	// ---- H. replays get the verdict the HTLC already has ----------------
-	single := len(ev.Subs) == 1
+	single := len(ev.Subs) == 1 && !ev.Windowed
 	for i, c := range ev.Subs {
 		if c.H == nil || i >= len(obs.Rets) {
 			continue
@@ -572,7 +580,7 @@ func (o *oracleState) Check(s *Sim, ev *Event, obs *Obs) {
 	if len(cur) != len(o.prev) {
 		changed = true
 	}
-	if changed || ev.Kind == "time" || ev.Kind == "block" || ev.Kind == "restart" || ev.Fault != "" {
+	if changed || ev.Kind == "time" || ev.Kind == "block" || ev.Kind == "restart" || ev.Fault != "" || ev.Windowed {
 		o.lastChange = ev.No
 	}
 	o.prev = cur
